@@ -22,8 +22,10 @@ pub enum Op {
     DeliverFull,
     DeliverAddr,
     Idle3s,
+    /// the client drops its browse receiver(s) without telling the daemon
+    DropBrowseRx,
 }
-pub const OPS: [Op; 14] = [
+pub const OPS: [Op; 15] = [
     Op::Browse,
     Op::BrowseDropOld,
     Op::BrowseCache,
@@ -38,6 +40,7 @@ pub const OPS: [Op; 14] = [
     Op::DeliverFull,
     Op::DeliverAddr,
     Op::Idle3s,
+    Op::DropBrowseRx,
 ];
 
 const TY: &str = "_t._tcp.local.";
@@ -299,7 +302,7 @@ impl Scenario for Scn {
         "search-start-stop-sequences".into()
     }
     fn rule(&self) -> String {
-        "all sequences over {browse, browse again dropping the old receiver, browse_cache, stop_browse, resolve_hostname Foo.local. (no timeout / 1500 ms, mixed or lower case), stop_resolve_hostname in either case, shutdown, deliver PTR / full record set / address record, idle 3 s}, then silence for the horizon; states de-duplicated on daemon dump + channel bookkeeping".into()
+        "all sequences over {browse, browse again dropping the old receiver, dropping the receiver without a new browse, browse_cache, stop_browse, resolve_hostname Foo.local. (no timeout / 1500 ms, mixed or lower case), stop_resolve_hostname in either case, shutdown, deliver PTR / full record set / address record, idle 3 s}, then silence for the horizon; states de-duplicated on daemon dump + channel bookkeeping".into()
     }
     fn setup(&self) -> Run {
         let mut w = World::one(lay_v4());
@@ -340,6 +343,14 @@ impl Scenario for Scn {
                 run.w.add_browse(0, rx);
                 run.bchans.push(Chan { host: false, cache_only, created: now, timeout_at: None, ended: None, replaced: None, dropped: None });
                 run.w.poke(0);
+            }
+            Op::DropBrowseRx => {
+                for ch in 0..run.bchans.len() {
+                    if run.bchans[ch].dropped.is_none() {
+                        run.bchans[ch].dropped = Some(now);
+                        run.w.drop_browse(0, ch);
+                    }
+                }
             }
             Op::StopBrowse => {
                 run.w.ds[0].h.stop_browse(TY).unwrap();
